@@ -575,41 +575,89 @@ Definition datetime_row (v0:list Z) : res (Z * list Z * Z) :=
   | _ => do t <- parse_timestamp_bytes v; Ok (t, pad_to 10 v, 1)
   end.
 
-(* datetime.strptime(value.decode(), '%Y-%m-%d') for ASCII text:
-   (\d\d\d\d)-(1[0-2]|0[1-9]|[1-9])-(3[0-1]|[1-2]\d|0[1-9]|[1-9]| [1-9]) then end of string *)
+(* value.decode(): strict UTF-8 (no overlong forms, no surrogates, at most U+10FFFF); the result is the list
+   of code points; None = UnicodeDecodeError (a ValueError) *)
+Definition is_cont (b:Z) : bool := (128 <=? b) && (b <=? 191).
+Fixpoint decode_utf8 (l:list Z) : option (list Z) :=
+  match l with
+  | [] => Some []
+  | b0 :: t0 =>
+    if (0 <=? b0) && (b0 <? 128) then option_map (cons b0) (decode_utf8 t0)
+    else if (194 <=? b0) && (b0 <=? 223) then
+      match t0 with
+      | b1 :: t1 =>
+        if is_cont b1 then option_map (cons ((b0 - 192) * 64 + (b1 - 128))) (decode_utf8 t1) else None
+      | [] => None
+      end
+    else if (224 <=? b0) && (b0 <=? 239) then
+      match t0 with
+      | b1 :: b2 :: t2 =>
+        if is_cont b1 && is_cont b2 && (if b0 =? 224 then 160 <=? b1 else true) && (if b0 =? 237 then b1 <=? 159 else true)
+        then option_map (cons ((b0 - 224) * 4096 + (b1 - 128) * 64 + (b2 - 128))) (decode_utf8 t2) else None
+      | _ => None
+      end
+    else if (240 <=? b0) && (b0 <=? 244) then
+      match t0 with
+      | b1 :: b2 :: b3 :: t3 =>
+        if is_cont b1 && is_cont b2 && is_cont b3 && (if b0 =? 240 then 144 <=? b1 else true) && (if b0 =? 244 then b1 <=? 143 else true)
+        then option_map (cons ((b0 - 240) * 262144 + (b1 - 128) * 4096 + (b2 - 128) * 64 + (b3 - 128))) (decode_utf8 t3)
+        else None
+      | _ => None
+      end
+    else None
+  end.
+
+(* `\d` of a str pattern and int() on a str: the decimal digits of Unicode (category Nd; Unicode 15.0 of
+   CPython 3.12: 68 runs of ten code points, value = offset in the run); the zeros of the runs: *)
+Definition ND_ZEROS : list Z :=
+  [48; 1632; 1776; 1984; 2406; 2534; 2662; 2790; 2918; 3046; 3174; 3302; 3430; 3558; 3664; 3792; 3872; 4160; 4240;
+   6112; 6160; 6470; 6608; 6784; 6800; 6992; 7088; 7232; 7248; 42528; 43216; 43264; 43472; 43504; 43600; 44016;
+   65296; 66720; 68912; 69734; 69872; 69942; 70096; 70384; 70736; 70864; 71248; 71360; 71472; 71904; 72016; 72784;
+   73040; 73120; 73552; 92768; 92864; 93008; 120782; 120792; 120802; 120812; 120822; 123200; 123632; 124144;
+   125264; 130032].
+Definition nd_zero (c:Z) : option Z := find (fun z => (z <=? c) && (c <? z + 10)) ND_ZEROS.
+Definition is_digit_u (c:Z) : bool := match nd_zero c with Some _ => true | None => false end.
+Definition dval_u (c:Z) : Z := match nd_zero c with Some z => c - z | None => 0 end.
+
+(* datetime.strptime(value.decode(), '%Y-%m-%d'), on the code points of the text: re.match of
+   (?P<Y>\d\d\d\d)-(?P<m>1[0-2]|0[1-9]|[1-9])-(?P<d>3[0-1]|[1-2]\d|0[1-9]|[1-9]| [1-9])   (CPython 3.12 _strptime)
+   then "unconverted data remains" unless the match ends the text; int() of the groups *)
 Definition dval (b:Z) : Z := b - 48.
-Definition strptime_ymd (v:list Z) : res (Z * Z * Z) :=
-  if existsb (fun b => 128 <=? b) v then Raise E_ValueError else
+(* (?P<m>1[0-2]|0[1-9]|[1-9])-  : value and the rest of the text *)
+Definition sp_month (r:list Z) : option (Z * list Z) :=
+  match r with
+  | a :: b :: 45 :: r' =>
+    if ((a =? 49) && (48 <=? b) && (b <=? 50)) || ((a =? 48) && (49 <=? b) && (b <=? 57))
+    then Some (dval a * 10 + dval b, r') else None
+  | a :: 45 :: r' => if (49 <=? a) && (a <=? 57) then Some (dval a, r') else None
+  | _ => None
+  end.
+
+(* (?P<d>3[0-1]|[1-2]\d|0[1-9]|[1-9]| [1-9])  : value and the unconverted rest *)
+Definition sp_day (r':list Z) : option (Z * list Z) :=
+  match r' with
+  | a :: t =>
+    match t with
+    | b :: t' =>
+      if (a =? 51) && ((b =? 48) || (b =? 49)) then Some (30 + dval b, t')
+      else if ((a =? 49) || (a =? 50)) && is_digit_u b then Some (dval a * 10 + dval_u b, t')
+      else if (a =? 48) && (49 <=? b) && (b <=? 57) then Some (dval b, t')
+      else if (49 <=? a) && (a <=? 57) then Some (dval a, t)
+      else if (a =? 32) && (49 <=? b) && (b <=? 57) then Some (dval b, t')
+      else None
+    | [] => if (49 <=? a) && (a <=? 57) then Some (dval a, []) else None
+    end
+  | [] => None
+  end.
+
+Definition strptime_cps (v:list Z) : res (Z * Z * Z) :=
   match v with
   | y0 :: y1 :: y2 :: y3 :: 45 :: r =>
-    if is_digit y0 && is_digit y1 && is_digit y2 && is_digit y3 then
-      let y := ((dval y0 * 10 + dval y1) * 10 + dval y2) * 10 + dval y3 in
-      let month : option (Z * list Z) :=
-        match r with
-        | a :: b :: 45 :: r' =>
-          if ((a =? 49) && (48 <=? b) && (b <=? 50)) || ((a =? 48) && (49 <=? b) && (b <=? 57))
-          then Some (dval a * 10 + dval b, r') else None
-        | a :: 45 :: r' => if (49 <=? a) && (a <=? 57) then Some (dval a, r') else None
-        | _ => None
-        end in
-      match month with
+    if is_digit_u y0 && is_digit_u y1 && is_digit_u y2 && is_digit_u y3 then
+      let y := ((dval_u y0 * 10 + dval_u y1) * 10 + dval_u y2) * 10 + dval_u y3 in
+      match sp_month r with
       | Some (m, r') =>
-        let day : option (Z * list Z) :=
-          match r' with
-          | a :: t =>
-            match t with
-            | b :: t' =>
-              if (a =? 51) && ((b =? 48) || (b =? 49)) then Some (30 + dval b, t')
-              else if ((a =? 49) || (a =? 50)) && is_digit b then Some (dval a * 10 + dval b, t')
-              else if (a =? 48) && (49 <=? b) && (b <=? 57) then Some (dval b, t')
-              else if (49 <=? a) && (a <=? 57) then Some (dval a, t)
-              else if (a =? 32) && (49 <=? b) && (b <=? 57) then Some (dval b, t')
-              else None
-            | [] => if (49 <=? a) && (a <=? 57) then Some (dval a, []) else None
-            end
-          | [] => None
-          end in
-        match day with
+        match sp_day r' with
         | Some (d, []) => Ok (y, m, d)
         | _ => Raise E_ValueError
         end
@@ -617,6 +665,12 @@ Definition strptime_ymd (v:list Z) : res (Z * Z * Z) :=
       end
     else Raise E_ValueError
   | _ => Raise E_ValueError
+  end.
+
+Definition strptime_ymd (v:list Z) : res (Z * Z * Z) :=
+  match decode_utf8 v with
+  | Some cps => strptime_cps cps
+  | None => Raise E_ValueError
   end.
 
 Definition date_row (v0:list Z) : res (Z * list Z * Z) :=
